@@ -28,6 +28,8 @@ import FFVerif.Model.Integrand
 import FFVerif.Model.IntegrandShape
 import FFVerif.Model.GradientInfid
 import FFVerif.Model.ExtendAsm
+import FFVerif.Model.TensorNum
+import FFVerif.Model.EtmFn
 
 namespace FFVerif.Model
 open FFVerif FFVerif.Proto
@@ -79,7 +81,7 @@ def handleMore (toks : List String) : String :=
     "ok " ++ showFloats #[v]
   | toks =>
     -- components that live in their own model files
-    let handlers : List (List String → Option String) := [handleDiag, Tensor.handleTensor, handleSecondOrder, handleGradient, handleGradientAsm, Pulse.handlePulse, handleBasis, handleCumulant, Cache.handleCacheTrace, Effects.handleEffects, Validate.handleValidate, ConcatLogic.handleConcatLogic, ExtendLogic.handleExtendLogic, Registers.handleRegisters, handleSuperopKraus, RemapDef.handleRemapDef, handleSuperop, handleTile, handleShifts, handleIntegrand, IntegrandShape.handleIntegrandShape, handleGradientInfid, ExtendAsm.handleExtendAsm]
+    let handlers : List (List String → Option String) := [handleDiag, Tensor.handleTensor, handleSecondOrder, handleGradient, handleGradientAsm, Pulse.handlePulse, handleBasis, handleCumulant, Cache.handleCacheTrace, Effects.handleEffects, Validate.handleValidate, ConcatLogic.handleConcatLogic, ExtendLogic.handleExtendLogic, Registers.handleRegisters, handleSuperopKraus, RemapDef.handleRemapDef, handleSuperop, handleTile, handleShifts, handleIntegrand, IntegrandShape.handleIntegrandShape, handleGradientInfid, ExtendAsm.handleExtendAsm, TensorNum.handleTensorNum, EtmFn.handleEtmFn]
     match handlers.findSome? (fun h => h toks) with
     | some r => r
     | none => "err bad-op"
